@@ -87,7 +87,8 @@ def phase_threads(run, pool):
     nrand = 150 if run.tier == "quick" else 3000
     sweeps = T.line_sweep_programs()
     if run.tier == "quick":
-        sweeps = [p for p in sweeps if p["name"].endswith("<-hutch")]
+        sweeps = [p for p in sweeps if (p["name"].endswith("<-hutch") and "/cold-mid/" not in p["name"])
+                  or p["name"] in ("threads-line-sweep/cold-mid/lanczos<-lanczos", "threads-line-sweep/cold-mid/hutch<-hutch")]
     jobs = [{"id": "thr-sweep-%d" % i, "kind": "program", "program": p["program"], "name": p["name"], "want_program": True,
              "deadline": 900, "run_seed": p["name"]} for i, p in enumerate(sweeps)]
     for p in T.sweep_programs(run.seed, 1 if run.tier == "quick" else 6):
